@@ -997,8 +997,71 @@ func jsonScriptBodyOnlyFromEncoder(c *Ctx, f *flow, rule string) {
 		}
 	}
 	inUnit := map[*ssa.Function]bool{}
+	// a write helper of the package (the methods of a sticky error writer): an unexported function every sink of which
+	// writes only its own parameters and constants. A call of it is a write of the arguments that stand for those
+	// parameters — the sinks of a function, with such calls counted in.
+	helperParams := map[*ssa.Function]map[int]bool{}
+	var helperOf func(h *ssa.Function) map[int]bool
+	helperOf = func(h *ssa.Function) map[int]bool {
+		if set, done := helperParams[h]; done {
+			return set
+		}
+		helperParams[h] = nil
+		if h == nil || h.Blocks == nil || h.Object() == nil || h.Object().Exported() || h.Pkg != sp {
+			return nil
+		}
+		sinks := findSinks(h)
+		if len(sinks) == 0 {
+			return nil
+		}
+		set := map[int]bool{}
+		for _, s := range sinks {
+			if s.Kind == "Encoder.Encode" {
+				return nil
+			}
+			for _, o := range s.Operands {
+				for _, l := range flatten(f.classify(o)) {
+					switch {
+					case l.Kind == "CONST":
+					case l.Kind == "PARAM" && strings.HasPrefix(l.Info, ssaFuncName(h)+"#"):
+						var i int
+						fmt.Sscan(l.Const, &i)
+						set[i] = true
+					default:
+						return nil
+					}
+				}
+			}
+		}
+		helperParams[h] = set
+		return set
+	}
+	sinksOf := func(fn *ssa.Function) []sinkSite {
+		out := findSinks(fn)
+		for _, b := range fn.Blocks {
+			for _, ins := range b.Instrs {
+				ci, ok := ins.(ssa.CallInstruction)
+				if !ok {
+					continue
+				}
+				h := ci.Common().StaticCallee()
+				set := helperOf(h)
+				if len(set) == 0 {
+					continue
+				}
+				v := sinkSite{Fn: fn, Kind: "via:" + h.Name(), Pos: ins.Pos(), Call: ci}
+				for i, a := range ci.Common().Args {
+					if set[i] {
+						v.Operands = append(v.Operands, a)
+					}
+				}
+				out = append(out, v)
+			}
+		}
+		return out
+	}
 	writesOpener := func(fn *ssa.Function) bool {
-		for _, s := range findSinks(fn) {
+		for _, s := range sinksOf(fn) {
 			for _, o := range s.Operands {
 				if k, ok := o.(*ssa.Const); ok && k.Value != nil && k.Value.Kind() == constant.String && strings.HasPrefix(constant.StringVal(k.Value), "<script") {
 					return true
@@ -1038,7 +1101,7 @@ func jsonScriptBodyOnlyFromEncoder(c *Ctx, f *flow, rule string) {
 	for _, u := range units {
 		hasEnc := false
 		for _, fn := range u.fns {
-			for _, s := range findSinks(fn) {
+			for _, s := range sinksOf(fn) {
 				if s.Kind == "Encoder.Encode" {
 					hasEnc = true
 				}
@@ -1058,7 +1121,7 @@ func jsonScriptBodyOnlyFromEncoder(c *Ctx, f *flow, rule string) {
 		for _, fn := range u.fns {
 			name := ssaFuncName(fn)
 			ord := map[string]int{}
-			for _, s := range findSinks(fn) {
+			for _, s := range sinksOf(fn) {
 				ord[s.Kind]++
 				key := fmt.Sprintf("%s|%s#%d|json-script-write", name, s.Kind, ord[s.Kind])
 				if s.Kind == "Encoder.Encode" {
